@@ -233,6 +233,17 @@ func genVest(g *Gen, n int) {
 				g.emit("v.q.locked %s", vaddr(fresh))
 				cvas = append(cvas, vaddr(fresh))
 			}
+			// directed shape: a pool above 2^63 base units (amounts are big integers) that matures and is
+			// withdrawn in full: query and payout agree, the event carries the whole amount
+			bo := vaddr(13)
+			g.emit("v.fund %s [%s=%s]", bo, den, "20000000000000000000")
+			bd := g.pickI(sec, 30*sec)
+			g.emit("v.createPool %s huge %s %d %s", atok(bo), g.pick("9223372036854775808", "9223372036854775809", "18446744073709551616"), bd, vts[0])
+			now += bd
+			g.emit("v.time %d", now)
+			g.emit("v.q.pools %s", bo)
+			g.emit("v.withdraw %s", atok(bo))
+			g.emit("v.q.pools %s", bo)
 			g.count("shape/long-vesting-type")
 		case 3:
 			if g.chance(0.5) {
@@ -544,6 +555,28 @@ func genSplit(g *Gen, n int) {
 			}
 			cvas = append(cvas, a)
 			g.count("pattern/delegated-exceeds-vesting")
+		}
+		if sc%2 == 1 {
+			// directed shape: a vesting account that has moved ALL of its (still fully locked) vesting away - its
+			// original vesting is empty, but it still exists: a later split / move TO it must be refused
+			x1, y1 := vaddr(fresh), vaddr(fresh+1)
+			fresh += 2
+			amt := 1000 + g.intn(100000)
+			g.emit("v.acct %s cva [uc4e=%d] %d %d", x1, amt, nowS+g.pickI(100, 1000), nowS+g.pickI(2000, 100000))
+			g.emit("v.fund %s [uc4e=%d]", x1, amt+g.intn(10))
+			g.emit("v.move %s %s", atok(x1), atok(y1))
+			g.emit("v.q.locked %s", x1)
+			switch g.intn(3) {
+			case 0:
+				g.emit("v.split %s %s [uc4e=%d]", atok(y1), atok(x1), 1+g.intn(amt))
+			case 1:
+				g.emit("v.move %s %s", atok(y1), atok(x1))
+			default:
+				g.emit("v.moveDenoms %s %s uc4e", atok(y1), atok(x1))
+			}
+			g.emit("v.q.locked %s", x1)
+			cvas = append(cvas, y1)
+			g.count("shape/emptied-vesting-recipient")
 		}
 		if sc%3 == 2 {
 			// directed shape (D37): a direct creation whose start lies so far before 1970 that end - start does
